@@ -112,6 +112,8 @@ def apply_random_op(node, rng, res):
     reals = [k for k, d in node.inputs.items() if d[0] == "real"]
     ints = [k for k, d in node.inputs.items() if d[0] != "real"]
     ops_avail = ["add", "add_other", "subs_real", "subs_real_batched", "rename", "align", "compress", "affine"]
+    if len(reals) >= 2:
+        ops_avail += ["subs_real_multi", "subs_real_multi"]
     if ints:
         ops_avail += ["subs_int", "slice", "cat", "subs_int_tensor"]
     else:
@@ -126,6 +128,10 @@ def apply_random_op(node, rng, res):
                 if k0 is None:
                     return None
                 sub[k0] = inputs[k0]
+            if rng.random() < 0.6:
+                # the same names listed in another order (same set of inputs when nothing was dropped)
+                ks = list(sub)
+                sub = OrderedDict((ks[i], sub[ks[i]]) for i in rng.permutation(len(ks)))
         else:
             sub = random_inputs(rng, 2, 1, names_real=("u", "v"), names_int=("i", "m"))
             for k, d in list(sub.items()):
@@ -143,6 +149,25 @@ def apply_random_op(node, rng, res):
         v = np.round(rng.uniform(-1.5, 1.5, size=inputs[k][1]), 2)
         new_inputs = OrderedDict((n, d) for n, d in inputs.items() if n != k)
         return "subs_real", Node(f(**{k: Tensor(v)}), lambda env: ref({**env, k: v}), new_inputs, node.desc + " (%s=const)" % k)
+    if op == "subs_real_multi" and len(reals) >= 2:
+        from funsor.terms import Subs
+
+        n = int(rng.integers(2, len(reals) + 1)) if (len(reals) == 2 or rng.random() < 0.3) else int(rng.integers(2, len(reals)))
+        ks = [str(k) for k in rng.choice(reals, size=n, replace=False)]     # random order, generally not the Gaussian's input order
+        vals = {k: np.round(rng.uniform(-1.5, 1.5, size=inputs[k][1]), 2) for k in ks}
+        new_inputs = OrderedDict((nm, d) for nm, d in inputs.items() if nm not in vals)
+        how = int(rng.integers(3))
+        if how == 0:
+            g = Subs(f, tuple((k, Tensor(vals[k])) for k in ks))
+        elif how == 1:
+            g = f(**{k: Tensor(vals[k]) for k in ks})
+        else:
+            # the map arrives through an enclosing lazy term whose inputs are ordered differently
+            with funsor.interpretations.lazy:
+                outer = sum((Variable(k, to_domain(inputs[k])).sum() if inputs[k][1] else Variable(k, to_domain(inputs[k])) for k in ks), 0.0) * 0.0 + f
+            g = outer(**{k: Tensor(vals[k]) for k in ks})
+            g = funsor.reinterpret(g)
+        return "subs_real", Node(g, lambda env: ref({**env, **vals}), new_inputs, node.desc + " (%s=consts via %s)" % (",".join(ks), ["Subs", "call", "enclosing-lazy"][how]))
     if op == "subs_real_batched" and reals:
         k = str(rng.choice(reals))
         bname = str(rng.choice(ints + ["b"])) if ints else "b"
@@ -300,6 +325,11 @@ def run_case(rng, res, riders):
                     out = apply_random_op(node, rng, res)
             except Exception as e:
                 res.count("op:declined:%s" % type(e).__name__)
+                import traceback
+
+                tb = traceback.extract_tb(e.__traceback__)
+                mine = [t for t in tb if t.filename.endswith("c12.py")]
+                res.observe("op-declined-at", "%s:%s line %d: %s" % (type(e).__name__, tb[-1].name, mine[-1].lineno if mine else -1, str(e)[:80]))
                 break
             if out is None:
                 continue
